@@ -193,7 +193,8 @@ Proof.
             n_ctor g2 = n_ctor g1 /\ n_dtor g2 = n_dtor g1).
   { destruct byCopy.
     - exists g1. rewrite use_live by (rewrite G1, Z.eqb_refl; reflexivity).
-      repeat split; auto. rewrite G1, Z.eqb_refl. reflexivity.
+      split; [reflexivity|]. split; [exact E1|]. split; [exact LI1|].
+      split; [rewrite G1, Z.eqb_refl; reflexivity|]. split; [reflexivity|]. split; reflexivity.
     - destruct (move_from_fact s0 g1 E1) as [E2 G2]; [rewrite G1, Z.eqb_refl; reflexivity|].
       eexists; split; [reflexivity|]. split; [exact E2|]. split; [apply move_from_linv; exact LI1|].
       split; [rewrite G2, Z.eqb_refl; reflexivity|]. split; [intros id Hn; rewrite G2, Hn; reflexivity|].
@@ -256,4 +257,171 @@ Proof.
     + right. apply INC. exact I.
   - apply (sim_errs _ _ _ S).
   - apply (sim_linv _ _ _ S).
+Qed.
+
+(* blocks that become unreachable when variable i is overwritten / dropped while it still owns a callable *)
+Definition abl_after (vs : list var) (av : list avar) (i : nat) (abl : list Z) : list Z :=
+  match nget av i, nget vs i with
+  | Some (Some _), Some (Some p) => p_blk p :: abl
+  | _, _ => abl
+  end.
+
+Ltac ngets :=
+  repeat first [ rewrite nget_nset by (rewrite ?nset_length; first [assumption | lia]) ].
+
+Ltac ngets_in H :=
+  repeat first [ rewrite nget_nset in H by (rewrite ?nset_length; first [assumption | lia]) ].
+
+(* variable i is set to a value that owns nothing (default construction: Some None; dropping: None) *)
+Lemma sim_clear s av abl i (a : avar) (v : var) :
+  sim s av abl -> (i < length av)%nat -> (a = None <-> v = None) -> is_owner a = 0 ->
+  sim (mkSt (nset (st_vars s) i v) (st_led s) (st_heap s) (st_ser s) (st_blk s)) (nset av i a)
+      (abl_after (st_vars s) av i abl).
+Proof.
+  intros S LA AV NO. pose proof (sim_len _ _ _ S) as L. assert (LV : (i < length (st_vars s))%nat) by lia.
+  apply (sim_relabel s av abl _ _ _ (fun k => k) S).
+  - rewrite !nset_length. exact L.
+  - intros k. ngets. destruct (Nat.eqb i k); [exact AV | apply (sim_scope _ _ _ S)].
+  - intros k t H. rewrite nget_nset in H by exact LA. destruct (Nat.eqb i k) eqn:E.
+    + subst a. simpl in NO. discriminate.
+    + destruct (sim_own _ _ _ S k t H) as [p [Hp _]]. exists p. ngets. rewrite E. split; [exact Hp | split; assumption].
+  - intros k l t t' Hne _ _. exact Hne.
+  - intros i0 t p [Ha Hv]. destruct (Nat.eqb i i0) eqn:E.
+    + apply Nat.eqb_eq in E. subst i0. right. unfold abl_after. rewrite Ha, Hv. left. reflexivity.
+    + left. exists i0. split; [reflexivity|]. split; ngets; rewrite E; assumption.
+  - unfold abl_after. destruct (nget av i) as [[?|]|]; try apply incl_refl.
+    destruct (nget (st_vars s) i) as [[?|]|]; try apply incl_refl. apply incl_tl, incl_refl.
+Qed.
+
+(* memcpy of variable j's bytes into variable i, j loses whatever it owned (abstractly) *)
+Lemma sim_move s av abl i j xj bj :
+  sim s av abl -> i <> j -> (i < length av)%nat -> nget av j = Some xj -> nget (st_vars s) j = Some bj ->
+  sim (mkSt (nset (st_vars s) i (Some bj)) (st_led s) (st_heap s) (st_ser s) (st_blk s))
+      (nset (nset av i (Some xj)) j (Some None)) (abl_after (st_vars s) av i abl).
+Proof.
+  intros S NE LA AJ VJ. pose proof (sim_len _ _ _ S) as L. assert (LV : (i < length (st_vars s))%nat) by lia.
+  pose proof (nget_in_range _ _ _ AJ) as LJ.
+  assert (Eij : Nat.eqb i j = false) by (apply Nat.eqb_neq; exact NE).
+  assert (Eji : Nat.eqb j i = false) by (apply Nat.eqb_neq; auto).
+  apply (sim_relabel s av abl _ _ _ (fun k => if Nat.eqb k i then j else k) S).
+  - rewrite !nset_length. exact L.
+  - intros k. ngets. destruct (Nat.eqb j k) eqn:Ejk.
+    + apply Nat.eqb_eq in Ejk. subst k. rewrite Eij, VJ. split; discriminate.
+    + destruct (Nat.eqb i k); [split; discriminate | apply (sim_scope _ _ _ S)].
+  - intros k t H. ngets_in H.
+    destruct (Nat.eqb j k) eqn:Ejk; [discriminate|].
+    destruct (Nat.eqb i k) eqn:Eik.
+    + apply Nat.eqb_eq in Eik. subst k. rewrite Nat.eqb_refl.
+      assert (Hx : xj = Some t) by congruence. rewrite Hx in *.
+      destruct (sim_own _ _ _ S j t AJ) as [p [Hp _]].
+      assert (Hb : bj = Some p) by congruence. rewrite Hb in *.
+      exists p. ngets. rewrite Nat.eqb_refl. split; [reflexivity | split; assumption].
+    + assert (Eki : Nat.eqb k i = false) by (apply Nat.eqb_neq; apply Nat.eqb_neq in Eik; auto). rewrite Eki.
+      destruct (sim_own _ _ _ S k t H) as [p [Hp _]]. exists p. ngets. rewrite Eik. split; [exact Hp | split; assumption].
+  - intros k l t t' Hne Hk Hl. ngets_in Hk. ngets_in Hl.
+    destruct (Nat.eqb j k) eqn:Ejk; [discriminate|]. destruct (Nat.eqb j l) eqn:Ejl; [discriminate|].
+    apply Nat.eqb_neq in Ejk. apply Nat.eqb_neq in Ejl.
+    destruct (Nat.eqb k i) eqn:Eki; destruct (Nat.eqb l i) eqn:Eli;
+      try apply Nat.eqb_eq in Eki; try apply Nat.eqb_eq in Eli; subst; auto.
+  - intros i0 t p [Ha Hv]. destruct (Nat.eqb i i0) eqn:E.
+    + apply Nat.eqb_eq in E. subst i0. right. unfold abl_after. rewrite Ha, Hv. left. reflexivity.
+    + destruct (Nat.eqb j i0) eqn:E2.
+      * apply Nat.eqb_eq in E2. subst i0. left. exists i. rewrite Nat.eqb_refl. split; [reflexivity|].
+        assert (Hx : xj = Some t) by congruence. assert (Hb : bj = Some p) by congruence. rewrite Hx, Hb in *.
+        split; ngets; rewrite ?Eji, ?Nat.eqb_refl; reflexivity.
+      * left. exists i0. assert (Nat.eqb i0 i = false) as -> by (apply Nat.eqb_neq; apply Nat.eqb_neq in E; auto).
+        split; [reflexivity|]. split; ngets; rewrite ?E2, ?E; assumption.
+  - unfold abl_after. destruct (nget av i) as [[?|]|]; try apply incl_refl.
+    destruct (nget (st_vars s) i) as [[?|]|]; try apply incl_refl. apply incl_tl, incl_refl.
+Qed.
+
+Lemma abl_after_same vs av i abl : is_owner (nget av i) = 0 -> abl_after vs av i abl = abl.
+Proof. unfold abl_after. destruct (nget av i) as [[?|]|]; simpl; intros H; try reflexivity; discriminate. Qed.
+
+Lemma abandon_length x : Z.of_nat (length (abandoned (abandon x))) = is_owner (Some x).
+Proof. destruct x; reflexivity. Qed.
+Lemma abandon_project x : filter not_abandon (abandon x) = [].
+Proof. destruct x; reflexivity. Qed.
+Lemma abandon_nil x : abandoned (abandon x) = [] -> is_owner (Some x) = 0.
+Proof. destruct x; simpl; [discriminate | reflexivity]. Qed.
+
+(* what one step must establish *)
+Definition step_goal (o : oracle) (s : state) (av : list avar) (abl : list Z) (x : op) (av' : list avar) (aevs : list aevent) : Prop :=
+  exists s' evs abl',
+    step o s x = Some (s', evs) /\ sim s' av' abl' /\
+    project evs = filter not_abandon aevs /\ forallb ev_aligned evs = true /\
+    cnt s' av' = cnt s av + Z.of_nat (length (abandoned aevs)) /\
+    (abandoned aevs = [] -> abl' = abl).
+
+Lemma in_range_eq s av abl i : sim s av abl -> in_range (st_vars s) i = in_range av i.
+Proof. intros S. unfold in_range. rewrite (sim_len _ _ _ S). reflexivity. Qed.
+
+Lemma step_default o s av abl i av' aevs : sim s av abl -> astep av (ODefault i) = Some (av', aevs) ->
+  step_goal o s av abl (ODefault i) av' aevs.
+Proof.
+  intros S H. unfold astep in H. destruct (in_range av i) eqn:IR; simpl in H; [|discriminate].
+  destruct (nget av i) eqn:Ea; [discriminate|]. inversion H; subst; clear H.
+  pose proof (proj1 (sim_scope _ _ _ S i) Ea) as Ev. apply in_range_true in IR.
+  exists (mkSt (nset (st_vars s) i (Some None)) (st_led s) (st_heap s) (st_ser s) (st_blk s)), [], (abl_after (st_vars s) av i abl).
+  split; [unfold step; rewrite (in_range_eq _ _ _ i S); rewrite (proj2 (in_range_true av i) IR); simpl; rewrite Ev; reflexivity|].
+  split; [apply sim_clear; auto; split; discriminate|].
+  split; [reflexivity|]. split; [reflexivity|]. split.
+  - unfold cnt; simpl. rewrite owned_length_nset by exact IR. rewrite Ea. simpl. lia.
+  - intros _. apply abl_after_same. rewrite Ea. reflexivity.
+Qed.
+
+Lemma step_drop o s av abl i av' aevs : sim s av abl -> astep av (ODrop i) = Some (av', aevs) ->
+  step_goal o s av abl (ODrop i) av' aevs.
+Proof.
+  intros S H. unfold astep in H. destruct (nget av i) as [xi|] eqn:Ea; [|discriminate]. inversion H; subst; clear H.
+  pose proof (nget_in_range _ _ _ Ea) as IR.
+  destruct (nget (st_vars s) i) as [bi|] eqn:Ev; [|apply (sim_scope _ _ _ S) in Ev; congruence].
+  exists (mkSt (nset (st_vars s) i None) (st_led s) (st_heap s) (st_ser s) (st_blk s)), [], (abl_after (st_vars s) av i abl).
+  split; [unfold step; rewrite Ev; reflexivity|].
+  split; [apply sim_clear; auto; tauto|].
+  split; [rewrite abandon_project; reflexivity|]. split; [reflexivity|]. split.
+  - unfold cnt; simpl. rewrite owned_length_nset by exact IR. rewrite Ea, abandon_length. simpl is_owner at 2. lia.
+  - intros N. apply abl_after_same. rewrite Ea. apply abandon_nil. exact N.
+Qed.
+
+Lemma step_movector o s av abl i j av' aevs : sim s av abl -> astep av (OMoveCtor i j) = Some (av', aevs) ->
+  step_goal o s av abl (OMoveCtor i j) av' aevs.
+Proof.
+  intros S H. unfold astep in H. destruct (in_range av i) eqn:IR; simpl in H; [|discriminate].
+  destruct (nget av i) eqn:Ea; [discriminate|]. destruct (nget av j) as [xj|] eqn:Eaj; [|discriminate].
+  inversion H; subst; clear H. apply in_range_true in IR.
+  pose proof (proj1 (sim_scope _ _ _ S i) Ea) as Ev.
+  destruct (nget (st_vars s) j) as [bj|] eqn:Evj; [|apply (sim_scope _ _ _ S) in Evj; congruence].
+  assert (NE : i <> j) by (intros ->; congruence).
+  pose proof (nget_in_range _ _ _ Eaj) as JR.
+  exists (mkSt (nset (st_vars s) i (Some bj)) (st_led s) (st_heap s) (st_ser s) (st_blk s)), [], (abl_after (st_vars s) av i abl).
+  split; [unfold step; rewrite (in_range_eq _ _ _ i S); rewrite (proj2 (in_range_true av i) IR); simpl; rewrite Ev, Evj; reflexivity|].
+  split; [apply sim_move; auto|].
+  split; [reflexivity|]. split; [reflexivity|]. split.
+  - unfold cnt; simpl. rewrite !owned_length_nset by (rewrite ?nset_length; lia).
+    rewrite nget_nset_other by exact NE. rewrite Ea, Eaj. simpl. lia.
+  - intros _. apply abl_after_same. rewrite Ea. reflexivity.
+Qed.
+
+Lemma step_moveassign o s av abl i j av' aevs : sim s av abl -> astep av (OMoveAssign i j) = Some (av', aevs) ->
+  step_goal o s av abl (OMoveAssign i j) av' aevs.
+Proof.
+  intros S H. unfold astep in H. destruct (nget av i) as [xi|] eqn:Ea; [|discriminate].
+  destruct (nget av j) as [xj|] eqn:Eaj; [|discriminate].
+  pose proof (nget_in_range _ _ _ Ea) as IR. pose proof (nget_in_range _ _ _ Eaj) as JR.
+  destruct (nget (st_vars s) i) as [bi|] eqn:Ev; [|apply (sim_scope _ _ _ S) in Ev; congruence].
+  destruct (nget (st_vars s) j) as [bj|] eqn:Evj; [|apply (sim_scope _ _ _ S) in Evj; congruence].
+  destruct (Nat.eqb i j) eqn:Eij; inversion H; subst; clear H.
+  - apply Nat.eqb_eq in Eij. subst j. rewrite Ev in Evj. inversion Evj; subst bj.
+    exists s, [], abl. split.
+    + unfold step. rewrite Ev. rewrite <- Ev at 2. rewrite nset_id. destruct s; reflexivity.
+    + split; [exact S|]. split; [reflexivity|]. split; [reflexivity|]. split; [simpl; lia | reflexivity].
+  - apply Nat.eqb_neq in Eij.
+    exists (mkSt (nset (st_vars s) i (Some bj)) (st_led s) (st_heap s) (st_ser s) (st_blk s)), [], (abl_after (st_vars s) av i abl).
+    split; [unfold step; rewrite Ev, Evj; reflexivity|].
+    split; [apply sim_move; auto|].
+    split; [rewrite abandon_project; reflexivity|]. split; [reflexivity|]. split.
+    + unfold cnt; simpl. rewrite !owned_length_nset by (rewrite ?nset_length; lia).
+      rewrite nget_nset_other by exact Eij. rewrite Ea, Eaj, abandon_length. simpl is_owner at 2 4. lia.
+    + intros N. apply abl_after_same. rewrite Ea. apply abandon_nil. exact N.
 Qed.
